@@ -688,9 +688,12 @@ class NodeEngine(Engine):
                 "uncontrolled": ["htslib threads", "cbc", "ASLR"]},
         }
 
-    def evidence_extra(self, prop, stats):
+    def evidence_extra(self, prop, stats, shapes=None):
         faults = {k[6:]: v for k, v in stats.items() if k.startswith("fault_")}
+        shapes = shapes or {}
         return {"evaluations": stats.get("scenario_executions", 0),
+                "distinct_pool_interleavings": sum(1 for k in shapes if k.startswith("sched:")),
+                "distinct_scenario_x_node_configurations": sum(1 for k in shapes if not k.startswith("sched:")),
                 "fault_kinds_fired": faults,
                 "simulated_time_s": stats.get("sim_clock_seconds_x1000", 0) / 1000.0,
                 "pool_uses": stats.get("pool_uses", 0), "pool_tasks": stats.get("pool_tasks", 0)}
